@@ -22,6 +22,8 @@ REQUIRED_COVER = [
     "sequence:g<T,after=commit", "sequence:g>T,after=commit",
     # a software-upgrade block (in-place store migrations before the fee market's BeginBlock) after a non-empty block
     "upgrade:from=3,fig>0", "sequence:g<T,after=upgrade", "sequence:g>T,after=upgrade",
+    # transactions of every kind the application's ante handler routes, delivered through DeliverTx in ABCI-level blocks
+    "ante:enabled,tx=cosmos", "ante:enabled,tx=cosmos-dynfee", "ante:enabled,tx=eip712-legacy", "ante:enabled,tx=eth",
     "sequence:g<T,after=restart", "sequence:g<T,after=reinit", "sequence:g<T,after=export_import",
 ]
 
@@ -113,9 +115,10 @@ def run(c):
         json.dump(grid, fh)
     nrandom = 100 if quick else 2000
     nrandcalc = 1500 if quick else 25000
+    nabci = 60 if quick else 1500
     out, hv_wall = hv(["feemarket", "--grid", "grid.json", "--scripts", "scripts.json",
                        "--random", str(nrandom), "--blocks", "8" if quick else "25", "--node-ops", "250" if quick else "40",
-                       "--random-calc", str(nrandcalc), "--seed", str(c.seed), "--out", "trace.ndjson"], cwd=wd)
+                       "--abci", str(nabci), "--random-calc", str(nrandcalc), "--seed", str(c.seed), "--out", "trace.ndjson"], cwd=wd)
     m = re.search(r"calc_rows=(\d+) calc_evaluations=(\d+) sequences=(\d+)", out)
     if not m:
         raise Infra("unexpected harness output: " + out[-500:])
@@ -147,9 +150,11 @@ def run(c):
         raise Infra("vacuous run: classes never exercised: %s" % missing)
     if res["spoke"] < rows * (grid["GMax"] + 1) // 2:
         raise Infra("vacuous run: the statement spoke about only %d evaluations" % res["spoke"])
-    if nseq != len(scripts) + nrandom:
+    c.extra["abci_level_sequences"] = nabci
+    if nseq != len(scripts) + nrandom + nabci:
         raise Infra("only %d block sequences executed" % nseq)
     steps = 0
+    nkind = {}
     nbound, sampled = {}, set()
     with open(os.path.join(wd, "trace.ndjson")) as fh:
         for line in fh:
@@ -164,6 +169,13 @@ def run(c):
             o = json.loads(line)
             if o["ev"] != "reset":
                 steps += 1
+                if o["ev"] == "ante" and o["args"]["kind"] != "decorator":
+                    kk = o["args"]["kind"] + (":accepted" if o["ok"] else ":rejected")
+                    nkind[kk] = nkind.get(kk, 0) + 1
+                    if o["ok"] and o["args"]["kind"] not in sampled and o["post"]["tgw"] != "0":
+                        sampled.add(o["args"]["kind"])
+                        c.samples.append({k: o[k] for k in ("ev", "args", "ok", "err")} |
+                                         {"post": {k: o["post"][k] for k in ("baseFee", "bgw", "tgw", "height", "maxGas")}})
                 if o["ev"] in ("restart", "reinit", "export_import", "upgrade"):
                     nbound[o["ev"]] = nbound.get(o["ev"], 0) + 1
                     if o["ev"] not in sampled and o["post"]["bgw"] != "0":
@@ -175,7 +187,11 @@ def run(c):
                                      {"post": {k: o["post"][k] for k in ("baseFee", "bgw", "tgw", "height", "maxGas")}})
     c.extra["sequence_steps"] = steps
     c.extra["node_operations_between_blocks"] = nbound
-    if steps < 20 * nseq:
+    c.extra["transactions_delivered_by_kind"] = nkind
+    for kd in ("cosmos", "cosmos-dynfee", "eip712-legacy", "eth"):
+        if nkind.get(kd + ":accepted", 0) < 10:
+            raise Infra("vacuous run: only %d accepted transactions of kind %s" % (nkind.get(kd + ":accepted", 0), kd))
+    if steps < 18 * nseq:
         raise Infra("vacuous run: only %d sequence steps" % steps)
 
     # 4. verdict: every signature is reproduced alone from its recorded scenario
